@@ -10,7 +10,7 @@ COMMON_ASSUME = [
 FAMILIES = {
     "rns": {
         "fix_all": ["stale", "lapsed", "bid"],
-        "mc": {"module": "MCRns", "cfg": {"quick": "Rns-mc-quick.cfg", "thorough": ["Rns-mc-quick.cfg", "Rns-mc-thorough.cfg"]},
+        "mc": {"module": "MCRns", "cfg": {"quick": ["Rns-mc-quick.cfg", "Rns-mc-aux.cfg"], "thorough": ["Rns-mc-quick.cfg", "Rns-mc-aux.cfg", "Rns-mc-thorough.cfg"]},
                "bug_cfg": "Rns-mc-quick.cfg", "timeout": {"quick": 300, "thorough": 1500}},
         "sim": {"module": "SimRns", "cfg": "Rns-sim.cfg",
                 "tiers": {"quick": {"num": 120, "depth": 30, "workers": 4}, "thorough": {"num": 4000, "depth": 40, "workers": 8, "timeout": 1800}}},
@@ -195,7 +195,7 @@ PROPS = {
     },
     "C04": {
         "family": "sp", "formulas": ["C04_Buy", "C04_PayOnce", "C04_Other"], "nt": "C04",
-        "mc_cfg": {"quick": ["SP-mc-pay-quick.cfg"], "thorough": ["SP-mc-pay-quick.cfg", "SP-mc-space-quick.cfg"]},
+        "mc_cfg": {"quick": ["SP-mc-pay-quick.cfg"], "thorough": ["SP-mc-pay-quick.cfg", "SP-mc-space-quick.cfg", "SP-mc-pay-thorough.cfg"]},
         "bug_variants": [("ref", ["PC04"], "SP-mc-pay-quick.cfg"), ("gaugeid", ["PC04"], "SP-mc-pay-quick.cfg")],
         "rule": "non-trivial = a plan purchase or pay-once post (successful or refused); distinct = distinct (pre-state, message, post-state) triples",
         "assumptions": SP_ASSUME,
@@ -210,7 +210,7 @@ PROPS = {
     },
     "C12": {
         "family": "sp", "formulas": ["C12_Gauges", "C12_Exact"], "nt": "C12",
-        "mc_cfg": {"quick": ["SP-mc-pay-quick.cfg"], "thorough": ["SP-mc-pay-quick.cfg"]},
+        "mc_cfg": {"quick": ["SP-mc-pay-quick.cfg"], "thorough": ["SP-mc-pay-quick.cfg", "SP-mc-pay-thorough.cfg"]},
         "bug_variants": [("gaugeid", ["PC12"], "SP-mc-pay12.cfg")],
         "rule": "non-trivial = a reward block while some gauge account holds tokens; distinct = distinct (pre-state, block, post-state) triples",
         "assumptions": SP_ASSUME,
@@ -245,7 +245,7 @@ PROPS = {
     },
     "C18": {
         "family": "notif",
-        "formulas": ["C18_Step", "C18_BlockSilent", "C18_NoPhantom", "C18_NoLoss", "C18_KF_BlockEntry", "C18_KF_Overwrite"], "nt": "C18",
+        "formulas": ["C18_Step", "C18_BlockSilent", "C18_BlockRecorded", "C18_NoPhantom", "C18_NoLoss", "C18_KF_BlockEntry", "C18_KF_Overwrite"], "nt": "C18",
         "bug_variants": [("blockentry", ["C18_KF_BlockEntry"], "Notif-mc-quick.cfg"), ("overwrite", ["C18_KF_Overwrite"], "Notif-mc-quick.cfg")],
         "rule": "non-trivial = a create, delete or block-senders step; distinct = distinct (pre-state, message, post-state) triples",
         "assumptions": COMMON_ASSUME + ["the inbox is observed through the AllNotificationsByAddress query method (cross-checked against the keeper getter)",
